@@ -198,7 +198,7 @@ def work(task):
                 variants.append(("layout:parens", render(node, parens=True), True, False))
                 for st in (1, 2):
                     variants.append(("spelling:int%d" % st, render(node, intstyle=st), True, False))
-                for st in (1, 2, 3):
+                for st in (1, 2, 3, 4):
                     variants.append(("spelling:esc%d" % st, render(node, escstyle=st), True, False))
                 variants.append(("string:split", render(node, split=lambda j: rnd.random() < 0.5,
                                                         splitws=rnd.choice([" ", "", "\n", "\t \n"])), True, False))
@@ -287,7 +287,7 @@ def main(tier, seed):
     ev.extra["programs"] = n
     need = ["rewrite:E?=(E,)", "rewrite:if=alt", "rewrite:?(E)=([E]!=[])", "rewrite:infix=?(let)", "rewrite:raw-string",
             "rewrite:raw-string-backslash", "rewrite:raw-string-percent", "rewrite:raw-string-splice", "rewrite:raw-string-mixed",
-            "simplify:fired", "string:split", "sugar:off", "layout:ws4", "layout:nops0", "layout:nops1"]
+            "simplify:fired", "spelling:esc4", "string:split", "sugar:off", "layout:ws4", "layout:nops0", "layout:nops1"]
     return finish(PID, tier, seed, ev, RULE, t0,
                   assumptions=["equivalences as stated in doc/syntax.rst; ?(E) vs ([E] != []) only where E ends by pushing a value",
                                "string literals nested inside %( %) keep their backslashes and quotes (in every escape spelling); comments inside %( %) avoid brackets and quotes (known finding)"],
